@@ -162,8 +162,13 @@ func invAff(a oracle.Aff) oracle.Aff {
 
 // checkTransform compares p.Transform(cm) with the image under am, segment by segment.
 func checkTransform(r *fw.R, sps []oracle.Subpath, cm canvas.Matrix, am oracle.Aff) {
+	checkTransformBy(r, sps, func(p *canvas.Path) *canvas.Path { return p.Transform(cm) }, am)
+}
+
+// checkTransformBy compares the path that apply returns with the image under am.
+func checkTransformBy(r *fw.R, sps []oracle.Subpath, apply func(*canvas.Path) *canvas.Path, am oracle.Aff) {
 	data := oracle.PathData(sps)
-	outData := cv.Path(data).Transform(cm).Data()
+	outData := apply(cv.Path(data)).Data()
 	out, err := oracle.Decode(outData)
 	if err != nil {
 		viol(r, sps, "transform-malformed-output", err.Error()+": "+fmt.Sprint(outData))
@@ -333,6 +338,49 @@ func transformFamily(name string, paths func() ([][]oracle.Subpath, []string), d
 			return fmt.Sprintf("%s [%s] transformed by %s", curvefam.Desc(ps[i/nw]), names[i/nw], mn)
 		},
 	}
+}
+
+// Path.Translate and Path.Scale are documented as the transformation by the corresponding matrix.
+type convenience struct {
+	name  string
+	apply func(*canvas.Path) *canvas.Path
+	am    oracle.Aff
+}
+
+var conveniences = func() []convenience {
+	var out []convenience
+	for _, v := range [][2]float64{{2, 1}, {-1, 1}, {1, -1}, {-1, -1}, {-2, -3}, {0.5, 3}, {3, 0.5}, {-0.5, 2}} {
+		v := v
+		out = append(out, convenience{fmt.Sprintf("Scale(%g,%g)", v[0], v[1]), func(p *canvas.Path) *canvas.Path { return p.Scale(v[0], v[1]) }, oracle.AffScale(v[0], v[1])})
+	}
+	for _, v := range [][2]float64{{3, -2}, {0, 0}, {-1.5, 7}} {
+		v := v
+		out = append(out, convenience{fmt.Sprintf("Translate(%g,%g)", v[0], v[1]), func(p *canvas.Path) *canvas.Path { return p.Translate(v[0], v[1]) }, oracle.AffTranslate(v[0], v[1])})
+	}
+	return out
+}()
+
+func convenienceFamily() fw.Family {
+	ps, names := singleSegPaths()
+	aps, anames := arcPairPaths()
+	ps, names = append(ps, aps...), append(names, anames...)
+	// closed shapes of arcs without rotation
+	P := func(x, y float64) oracle.Pt { return oracle.Pt{X: x, Y: y} }
+	ps = append(ps, []oracle.Subpath{oracle.Chain(true, oracle.MkArc(P(0, 0), 10, 10, 0, false, true, P(10, 10)), oracle.MkLine(P(10, 10), P(0, 10)))})
+	names = append(names, "quarter circle + line, closed")
+	ps = append(ps, []oracle.Subpath{oracle.Chain(true, oracle.MkArc(P(4, 0), 4, 2, 0, false, true, P(-4, 0)), oracle.MkArc(P(-4, 0), 4, 2, 0, false, true, P(4, 0)))})
+	names = append(names, "ellipse of two arcs")
+	n := int64(len(conveniences))
+	return fw.Family{Name: "Path.Scale / Path.Translate x segment menu, arc pairs and untilted arc shapes", N: int64(len(ps)) * n,
+		Check: func(i int64, r *fw.R) {
+			c := conveniences[i%n]
+			checkTransformBy(r, ps[i/n], c.apply, c.am)
+			r.NontrivialIdx()
+			r.Outcome("convenience:" + strings.SplitN(c.name, "(", 2)[0])
+		},
+		Desc: func(i int64) string {
+			return fmt.Sprintf("%s [%s] .%s", curvefam.Desc(ps[i/n]), names[i/n], conveniences[i%n].name)
+		}}
 }
 
 func singleSegPaths() ([][]oracle.Subpath, []string) {
@@ -575,6 +623,7 @@ func families(tier string) []fw.Family {
 	fs := []fw.Family{
 		transformFamily("segment-menu x matrix words <= 2", singleSegPaths, 2),
 		transformFamily("arcs of equal radii and different rotation in one path x matrix words <= 2", arcPairPaths, 2),
+		convenienceFamily(),
 		lawsFamily(2),
 	}
 	if tier == "thorough" {
